@@ -111,7 +111,8 @@ static void run_kind(vrt::Exec& x)
                             }
                         } else if (op == 2) {
                             if constexpr (timedM<M>) {
-                                auto h = A->try_lock_for(d);
+                                // both timed forms are exercised (they map to the same operation of the model)
+                                auto h = (tid % 2) ? A->try_lock_for(d) : A->try_lock_until(std::chrono::steady_clock::now() + d);
                                 if (h) {
                                     vrt::log_ev("hget", "cell", 1, 1);
                                     r = rmw(h, tid);
@@ -153,7 +154,7 @@ static void run_kind(vrt::Exec& x)
                             }
                         } else if (op == 7) {
                             if constexpr (timedM<M>) {
-                                auto h = A->try_lock_shared_for(d);
+                                auto h = (tid % 2) ? A->try_lock_shared_for(d) : A->try_lock_shared_until(std::chrono::steady_clock::now() + d);
                                 if (h) {
                                     vrt::log_ev("hget", "cell", 1, 0);
                                     r = h->read();
